@@ -864,6 +864,7 @@ def site_bodies(repo):
 
 
 def emit_bodies(out, names, outdir, raw=None):
+    import bodies
     raw = raw or {}
     lines = ['import Uom.Model.Body', '/-! GENERATED by translate/translate.py (site `bodies`) — do not edit -/',
              'namespace Uom.Gen.Body', 'open Uom.Body', '']
@@ -955,24 +956,42 @@ def emit_bodies(out, names, outdir, raw=None):
             i += 1
     sl.append('')
     sl.append('/-! every conditional-compilation predicate of the macro files (documentation / lint-only `cfg_attr`s excluded) -/')
-    names = []
+    cfg_names = []
     for i, ptxt in enumerate(preds):
         nm = 'cfg_' + (re.sub(r'[^A-Za-z0-9]+', '_', ptxt).strip('_') or 'x')
-        if nm in names:
+        if nm in cfg_names:
             nm += '_%d' % i
-        names.append(nm)
+        cfg_names.append(nm)
         sl.append('/-- `%s` -/' % ptxt.replace('-/', '- /'))
         sl.append('def %s : Nat := %d' % (nm, i))
-    sl.append('def cfgPredicates : List Nat := [%s]' % ', '.join(names))
+    sl.append('def cfgPredicates : List Nat := [%s]' % ', '.join(cfg_names))
     # the atoms of each predicate other than `feature = "…"` and `test` (e.g. `debug_assertions`, `target_pointer_width`):
     # configuration axes the feature-flag property (C17) and the debug-build correspondence do not range over
     foreign = []
-    for nm, ptxt in zip(names, preds):
+    for nm, ptxt in zip(cfg_names, preds):
         atoms = [w for w in re.findall(r"[A-Za-z_$][A-Za-z0-9_$]*", re.sub(r"'[^']*'", '', ptxt))
                  if w not in ('not', 'any', 'all', 'feature', 'test', 'cfg_attr', '$feature')]
         if atoms:
             foreign.append('(%s, %d)' % (nm, len(atoms)))
     sl.append('def cfgForeignAtoms : List (Nat × Nat) := [%s]' % ', '.join(foreign))
+    # method-resolution hijack: a method of one of the crate's own traits (which are where-clause bounds of every
+    # quantity impl, hence in scope) that has the same name as a storage-type method the quantity impls forward to
+    # (`self.value.abs()` …) would be picked instead of it when its receiver is by value
+    tfns = bodies.collect_trait_fns(lambda rel: read(os.environ.get('UOM_REPO', '/repo'), 'src/' + rel, 'bodies.' + rel),
+                                    ['lib.rs', 'system.rs', 'quantity.rs', 'unit.rs', 'si/mod.rs'])
+    fwd_codes = {text[len('method '):].split('::<')[0]: code for text, code in names.codes.items() if text.startswith('method ')}
+    sl.append('')
+    sl.append('/-! methods declared by the traits of the crate, as codes of the method-name table of `Gen/Bodies.lean` when a quantity body calls a method of that name -/')
+    rows = []
+    trs = []
+    for tr, fn in tfns:
+        if tr not in trs:
+            trs.append(tr)
+            sl.append('def trait_%s : Nat := %d' % (tr, len(trs) - 1))
+        if fn in fwd_codes:
+            rows.append('(trait_%s, %d)' % (tr, fwd_codes[fn]))
+    sl.append('def traitFnCodes : List (Nat × Nat) := [%s]' % ', '.join(rows))
+    sl.append('def traitFnCount : Nat := %d' % len(tfns))
     # function keys that occur more than once (an unrecognised cfg twin would show up here)
     dups = sorted(k for k, _n, _l in out if re.search(r'_v\d+$', k))
     sl.append('def duplicateKeys : List String := [%s]' % ', '.join('"%s"' % d for d in dups))
